@@ -157,6 +157,13 @@ def props_sources(mods):
     return sorted(seen)
 
 
+def oracle_root(exe):
+    """Root module of a lean_exe of lean/lakefile.toml (oracle_smap -> Oracle.Smap)."""
+    txt = open(os.path.join(LEAN, "lakefile.toml")).read()
+    m = re.search(r'name = "%s"\s*\nroot = "([\w.]+)"' % re.escape(exe), txt)
+    return m.group(1) if m else "Oracle." + exe.split("_", 1)[-1].capitalize()
+
+
 def strip_comments(src):
     src = re.sub(r"/-.*?-/", "", src, flags=re.S)
     src = re.sub(r"--.*", "", src)
@@ -401,9 +408,18 @@ def check_property(pid, tier, seed, replay=None):
     # -- 1/2: facts + lean (serialised: lake and the Generated directory are shared)
     with Lock("lean.lock"):
         facts_ok, facts_out, facts_sha = stage_facts()
-        if not facts_ok:
-            problems.append(("proof", "gofacts could not extract a fact the proofs depend on:\n" + facts_out[-2000:]))
         oracles = sorted({d["oracle"] for d in cfg["drivers"]})
+        if not facts_ok:
+            # An extractor that fails writes the error into its own Generated module (the Lean build of everything
+            # importing it then fails).  Only properties whose proofs or oracles import such a module are affected;
+            # a fact lost for another property's extractor is not this property's alarm.
+            failed = set(re.findall(r"^gofacts: (\w+): ", facts_out, flags=re.M))
+            closure = set(props_sources(list(mods) + [oracle_root(o) for o in oracles]))
+            mine = sorted(f for f in failed if "Uquic.Generated." + f in closure)
+            if mine or not failed:
+                problems.append(("proof", "gofacts could not extract a fact the proofs depend on (%s):\n%s" % (",".join(mine) or "?", facts_out[-2000:])))
+            else:
+                log("gofacts: extractor(s) %s failed, not imported by %s: ignored here" % (",".join(sorted(failed)), pid))
         ok_or, out_or, dt_or = lake_build(oracles)
         if not ok_or:
             problems.append(("corr", "oracle build failed (model no longer compiles against regenerated facts):\n" + "\n".join(lean_errors(out_or))))
